@@ -533,7 +533,7 @@ fn reader_ops(r: &mut Rng, rs: usize, n: usize, thorough: bool, traits: bool) ->
             let v = match r.below(6) {
                 0 => -(r.below(5000) as i64),
                 1 => r.below(5000) as i64,
-                2 => -(xof_pos(r) as i64).abs(),
+                2 => (xof_pos(r) as i64).checked_abs().map_or(i64::MIN, |x| -x),
                 3 => i64::MIN + r.below(10) as i64,
                 4 => (r.next() >> 2) as i64,
                 _ => -(r.below(130) as i64),
@@ -735,4 +735,632 @@ pub fn c10(base_seed: u64, i: u64, g: &GenCtx) -> Plan {
     let cfg = Cfg { pool_width: if mixa.simjoin { 2 + r.below(4) as u8 } else { 1 }, ..Cfg::default() };
     let tps = tasks.into_iter().map(|ops| TaskPlan { level: level(&mut r, g.avail), ops }).collect();
     multi("C10", "c10", seed, cfg, data, tps, &mut r)
+}
+
+// ---------------------------------------------------------------------------------------------
+// C08: multithreaded hashing is deterministic under every schedule (scripted Join + real rayon)
+
+fn degree_of(l: Level, avail: &[Level]) -> usize {
+    match l {
+        Level::Portable => 1,
+        Level::SSE2 | Level::SSE41 => 4,
+        Level::AVX2 => 8,
+        Level::AVX512 => 16,
+        Level::Detect => avail.iter().map(|x| degree_of(*x, &[])).max().unwrap_or(1),
+    }
+}
+
+fn split_len(r: &mut Rng, d: usize, max_chunks: usize) -> usize {
+    let chunks = match r.below(10) {
+        0 => d + 1,
+        1 => 2 * d,
+        2 => 2 * d + 1,
+        3 => 3 * d,
+        4 => 4 * d + r.usize_below(3),
+        5 => 1usize << r.below(10),
+        6 => (1usize << r.below(9)) + 1,
+        7 => 2 + r.usize_below(12),
+        _ => 2 + r.usize_below(max_chunks),
+    }
+    .clamp(2, max_chunks);
+    let tail = match r.below(4) {
+        0 => 0,
+        1 => 1,
+        2 => 1023,
+        _ => r.usize_below(1024),
+    };
+    (chunks - 1) * KIB + if tail == 0 { KIB } else { tail }
+}
+
+pub fn c08(base_seed: u64, i: u64, g: &GenCtx) -> Plan {
+    let seed = mix(base_seed ^ 0xC08, i);
+    let mut r = Rng::new(seed);
+    let ntasks = if r.chance(5, 6) { 1 } else { 2 };
+    let mut data = Vec::new();
+    let mut tasks = Vec::new();
+    let mut slot = 0;
+    let max_chunks = if g.tier_thorough { 1024 } else { 300 };
+    let real_rayon = r.chance(1, 6);
+    for _ in 0..ntasks {
+        let lvl = if r.chance(2, 5) { Level::Portable } else { level(&mut r, g.avail) };
+        let d = degree_of(lvl, g.avail);
+        let mut ops = Vec::new();
+        let nh = 1 + r.usize_below(2);
+        for _ in 0..nh {
+            let m = mode(&mut r, &mut data);
+            let h = slot;
+            slot += 1;
+            ops.push(Op::NewHasher { slot: h, mode: m, via: NewVia::Inherent });
+            let prefix = match r.below(4) {
+                0 => 0,
+                1 => 1 + r.usize_below(1023),
+                2 => KIB * (1 + r.usize_below(9)),
+                _ => size(&mut r, 20 * KIB),
+            };
+            let n_upd = 1 + r.usize_below(3);
+            let mut lens = vec![];
+            for _ in 0..n_upd {
+                let mc = if r.chance(1, 8) { max_chunks } else { max_chunks.min(8 * d + 40) };
+                lens.push(split_len(&mut r, d, mc));
+            }
+            let total: usize = prefix + lens.iter().sum::<usize>() + 3 * 2600;
+            data.push(data_spec(&mut r, total));
+            let di = data.len() - 1;
+            let mut off = 0;
+            if prefix > 0 {
+                ops.push(Op::Absorb { h, data: di, off, len: prefix, via: AbsorbVia::Update });
+                off += prefix;
+            }
+            for len in lens {
+                let via = if real_rayon {
+                    if r.chance(1, 3) { AbsorbVia::MmapRayon } else { AbsorbVia::Rayon { width: *r.pick(&[1u8, 2, 4, 16]) } }
+                } else {
+                    AbsorbVia::SimJoin(join_policy(&mut r))
+                };
+                ops.push(Op::Absorb { h, data: di, off, len, via });
+                off += len;
+                // same state as a serial update: count (inside Absorb), outputs, and the continuation
+                ops.push(Op::Finalize { h, via: FinVia::Inherent });
+                if r.chance(1, 2) {
+                    ops.push(Op::FinalizeXof { h, r: None, n: 131, via: FinVia::Inherent });
+                }
+                if r.chance(1, 2) {
+                    let more = 1 + r.usize_below(2500);
+                    ops.push(Op::Absorb { h, data: di, off, len: more.min(total - off), via: AbsorbVia::Update });
+                    off += more.min(total - off);
+                    ops.push(Op::Finalize { h, via: FinVia::Inherent });
+                }
+            }
+        }
+        tasks.push(TaskPlan { level: lvl, ops });
+    }
+    let cfg = Cfg { pool_width: 1 + r.below(8) as u8, ..Cfg::default() };
+    let mut p = multi("C08", "c08", seed, cfg, data, tasks, &mut r);
+    if matches!(p.schedule, Schedule::Explicit { .. }) {
+        p.schedule = schedule(&mut r);
+    }
+    p
+}
+
+// ---------------------------------------------------------------------------------------------
+// C18: independent hashers are isolated across threads (judge: Solo)
+
+/// a self-contained program over its own instances
+fn solo_program(r: &mut Rng, data: &mut Vec<DataSpec>, slot: &mut usize, g: &GenCtx) -> Vec<Op> {
+    let mut ops = Vec::new();
+    let n = 1 + r.usize_below(3);
+    for _ in 0..n {
+        match r.below(5) {
+            0 => {
+                // one-shot calls
+                let len = size(r, 20 * KIB);
+                data.push(data_spec(r, len));
+                let di = data.len() - 1;
+                let m = mode(r, data);
+                ops.push(Op::OneShot { mode: m, data: di, off: 0, len });
+            }
+            1 => {
+                // XOF reader history
+                let len = r.usize_below(3 * KIB);
+                data.push(data_spec(r, len));
+                let di = data.len() - 1;
+                let m = mode(r, data);
+                let h = *slot;
+                let rs = *slot + 1;
+                *slot += 2;
+                ops.push(Op::NewHasher { slot: h, mode: m, via: NewVia::Inherent });
+                ops.push(Op::Absorb { h, data: di, off: 0, len, via: AbsorbVia::Update });
+                ops.push(Op::FinalizeXof { h, r: Some(rs), n: 64, via: FinVia::Inherent });
+                let k = 2 + r.usize_below(8);
+                ops.extend(reader_ops(r, rs, k, false, false));
+            }
+            _ => {
+                // hasher history
+                let total = size(r, if g.tier_thorough { 128 * KIB } else { 40 * KIB });
+                data.push(data_spec(r, total));
+                let di = data.len() - 1;
+                let m = mode(r, data);
+                let h = *slot;
+                *slot += 1;
+                ops.push(Op::NewHasher { slot: h, mode: m, via: NewVia::Inherent });
+                let mixa = AdapterMix { io: true, rayon: false, simjoin: false, mmap: false, traits: false };
+                let mut off = 0;
+                for f in fragments(r, total) {
+                    ops.push(Op::Absorb { h, data: di, off, len: f, via: adapter(r, f, &mixa) });
+                    off += f;
+                    if r.chance(1, 3) {
+                        ops.push(query_op(r, h, false));
+                    }
+                }
+                ops.push(Op::Finalize { h, via: FinVia::Inherent });
+                ops.push(Op::FinalizeXof { h, r: None, n: xof_len(r), via: FinVia::Inherent });
+            }
+        }
+    }
+    ops
+}
+
+pub fn c18(base_seed: u64, i: u64, g: &GenCtx) -> Plan {
+    let seed = mix(base_seed ^ 0xC18, i);
+    let mut r = Rng::new(seed);
+    let ntasks = 2 + r.usize_below(5);
+    let mut data = Vec::new();
+    let mut slot = 0;
+    let mut tasks = Vec::new();
+    for _ in 0..ntasks {
+        let ops = solo_program(&mut r, &mut data, &mut slot, g);
+        tasks.push(TaskPlan { level: level(&mut r, g.avail), ops });
+    }
+    let mut p = multi("C18", "c18", seed, Cfg { pool_width: 1, ..Cfg::default() }, data, tasks, &mut r);
+    p.schedule = schedule(&mut r);
+    p
+}
+
+// ---------------------------------------------------------------------------------------------
+// C04: the same plans, re-executed under every level (judge: CompareLevels)
+
+fn as_c04(mut p: Plan, fam: &str) -> Plan {
+    p.prop = "C04".into();
+    p.family = fam.into();
+    p
+}
+
+pub fn c04_hist(base_seed: u64, i: u64, g: &GenCtx) -> Plan {
+    as_c04(c02(base_seed ^ 0x4004, i, g), "c04-c02")
+}
+pub fn c04_xof(base_seed: u64, i: u64, g: &GenCtx) -> Plan {
+    as_c04(c03(base_seed ^ 0x4004, i, g), "c04-c03")
+}
+pub fn c04_join(base_seed: u64, i: u64, g: &GenCtx) -> Plan {
+    as_c04(c08(base_seed ^ 0x4004, i, g), "c04-c08")
+}
+pub fn c04_reader(base_seed: u64, i: u64, g: &GenCtx) -> Plan {
+    // fault-free and faulty reader scripts alike: the adapter path must not depend on the level
+    as_c04(c11_reader(base_seed ^ 0x4004, i * 7 + (i % 2), g), "c04-c11")
+}
+
+// ---------------------------------------------------------------------------------------------
+// C09: subtree hashing composes for every valid decomposition (simulated cluster)
+
+fn model_left_len(len: u64) -> u64 {
+    crate::model::largest_pow2_below(len)
+}
+
+struct Shard {
+    off: usize,
+    len: usize,
+    cv: usize,
+}
+
+/// returns the cv slot of node (off,len); appends shards and merge ops (post-order)
+fn decompose(r: &mut Rng, off: usize, len: usize, stop_p: u64, group: usize, next_cv: &mut usize, shards: &mut Vec<Shard>, merges: &mut Vec<(usize, usize, usize)>, top: bool) -> usize {
+    let stop = !top && (len <= KIB || len <= group || r.below(100) < stop_p);
+    if stop || len <= KIB {
+        let cv = *next_cv;
+        *next_cv += 1;
+        shards.push(Shard { off, len, cv });
+        return cv;
+    }
+    let l = model_left_len(len as u64) as usize;
+    let a = decompose(r, off, l, stop_p, group, next_cv, shards, merges, false);
+    let b = decompose(r, off + l, len - l, stop_p, group, next_cv, shards, merges, false);
+    let cv = *next_cv;
+    *next_cv += 1;
+    merges.push((a, b, cv));
+    cv
+}
+
+fn hazmat_capable_mode(r: &mut Rng, data: &mut Vec<DataSpec>) -> Mode {
+    mode(r, data)
+}
+
+pub fn c09(base_seed: u64, i: u64, g: &GenCtx) -> Plan {
+    let seed = mix(base_seed ^ 0xC09, i);
+    let mut r = Rng::new(seed);
+    let max = if g.tier_thorough { 1 << 20 } else { 200 * KIB };
+    let len = (1025 + size(&mut r, max - 1025)).min(max);
+    let mut data = vec![data_spec(&mut r, len)];
+    let m = hazmat_capable_mode(&mut r, &mut data);
+    let nworkers = 1 + r.usize_below(6);
+    let mut tasks: Vec<Vec<Op>> = vec![Vec::new(); nworkers + 1];
+    let stop_p = *r.pick(&[0u64, 10, 30, 60, 90]);
+    let group = *r.pick(&[0usize, KIB, 2 * KIB, 4 * KIB, 16 * KIB, 64 * KIB]);
+    let mut next_cv = 1000usize;
+    let mut shards = Vec::new();
+    let mut merges = Vec::new();
+    let top = decompose(&mut r, 0, len, stop_p, group, &mut next_cv, &mut shards, &mut merges, true);
+    let _ = top;
+    let mixa = AdapterMix { io: r.chance(1, 2), rayon: r.chance(1, 8), simjoin: r.chance(1, 4), mmap: false, traits: false };
+    let mut hslot = 0usize;
+    // workers process shards in a shuffled order
+    let mut order: Vec<usize> = (0..shards.len()).collect();
+    for k in (1..order.len()).rev() {
+        order.swap(k, r.usize_below(k + 1));
+    }
+    let crash_p = *r.pick(&[0u64, 0, 5, 20]);
+    let dup_p = *r.pick(&[0u64, 0, 5, 15]);
+    let mut dup_slot = 5000usize;
+    let mut coord_recv: Vec<usize> = Vec::new();
+    for &si in &order {
+        let sh = &shards[si];
+        let mut w = 1 + r.usize_below(nworkers);
+        // fault: the worker crashes mid-shard; the shard is recomputed on a fresh hasher (maybe elsewhere)
+        if r.below(100) < crash_p {
+            let h = hslot;
+            hslot += 1;
+            tasks[w].push(Op::NewHasher { slot: h, mode: m.clone(), via: NewVia::Inherent });
+            tasks[w].push(Op::SetOffset { h, off: sh.off as u64 });
+            let part = r.usize_below(sh.len + 1);
+            tasks[w].push(Op::Absorb { h, data: 0, off: sh.off, len: part, via: AbsorbVia::Update });
+            tasks[w].push(Op::Cancel);
+            tasks[w].push(Op::DropSlot { slot: h });
+            if r.chance(1, 2) {
+                w = 1 + r.usize_below(nworkers);
+            }
+        }
+        let copies = if r.below(100) < dup_p { 2 } else { 1 };
+        for c in 0..copies {
+            let w2 = if c == 0 { w } else { 1 + r.usize_below(nworkers) };
+            let h = hslot;
+            hslot += 1;
+            tasks[w2].push(Op::NewHasher { slot: h, mode: m.clone(), via: NewVia::Inherent });
+            if sh.off > 0 || r.chance(1, 3) {
+                tasks[w2].push(Op::SetOffset { h, off: sh.off as u64 });
+            }
+            let mut o = sh.off;
+            for f in fragments(&mut r, sh.len) {
+                tasks[w2].push(Op::Absorb { h, data: 0, off: o, len: f, via: adapter(&mut r, f, &mixa) });
+                o += f;
+                if r.chance(1, 6) {
+                    tasks[w2].push(Op::Count { h });
+                }
+            }
+            let cv = if c == 0 { sh.cv } else { dup_slot += 1; dup_slot };
+            tasks[w2].push(Op::FinalizeNonRoot { h, cv });
+            tasks[w2].push(Op::Send { slot: cv, to: 0 });
+            coord_recv.push(cv);
+            if c == 1 {
+                // a duplicate delivery: the coordinator receives it too and may use either copy
+            }
+        }
+    }
+    // coordinator: receive in tree order (messages arrive in any order), merge bottom-up
+    coord_recv.sort_unstable();
+    let mut dups: Vec<usize> = coord_recv.iter().copied().filter(|c| *c >= 5000).collect();
+    for cv in coord_recv.iter().filter(|c| **c < 5000) {
+        tasks[0].push(Op::Recv { slot: *cv });
+    }
+    for cv in dups.drain(..) {
+        tasks[0].push(Op::Recv { slot: cv });
+    }
+    let n_merges = merges.len();
+    for (k, (a, b, out)) in merges.iter().enumerate() {
+        if k + 1 == n_merges {
+            tasks[0].push(Op::Merge { l: *a, r: *b, mode: m.clone(), kind: MergeKind::Root, out: *out, n: 0 });
+            let rs = 9000;
+            tasks[0].push(Op::Merge { l: *a, r: *b, mode: m.clone(), kind: MergeKind::RootXof, out: rs, n: xof_len(&mut r) });
+            let k2 = r.usize_below(6);
+            let e = reader_ops(&mut r, rs, k2, false, false);
+            tasks[0].extend(e);
+            if r.chance(1, 3) {
+                tasks[0].push(Op::Merge { l: *a, r: *b, mode: m.clone(), kind: MergeKind::NonRoot, out: *out, n: 0 });
+            }
+        } else {
+            tasks[0].push(Op::Merge { l: *a, r: *b, mode: m.clone(), kind: MergeKind::NonRoot, out: *out, n: 0 });
+        }
+    }
+    // helper functions at the shard boundaries
+    for sh in shards.iter().take(6) {
+        if sh.off > 0 {
+            tasks[0].push(Op::HelperMaxLen { off: sh.off as u64 });
+        }
+    }
+    tasks[0].push(Op::HelperLeftLen { n: len as u64 });
+    let cfg = Cfg { pool_width: if mixa.simjoin { 2 + r.below(4) as u8 } else { 1 }, ..Cfg::default() };
+    let tps = tasks.into_iter().map(|ops| TaskPlan { level: level(&mut r, g.avail), ops }).collect();
+    let mut p = multi("C09", "c09-cluster", seed, cfg, data, tps, &mut r);
+    p.schedule = schedule(&mut r);
+    p
+}
+
+/// giant virtual inputs: only a window is hashed with real bytes
+pub fn c09_giant(base_seed: u64, i: u64, g: &GenCtx) -> Plan {
+    let seed = mix(base_seed ^ 0x91A7, i);
+    let mut r = Rng::new(seed);
+    let total: u64 = match r.below(6) {
+        0 => u64::MAX,
+        1 => u64::MAX - r.below(5000),
+        2 => (1u64 << (11 + r.below(53))) + r.below(3) - 1,
+        3 => (1u64 << 63) + r.below(1 << 20),
+        _ => {
+            let bits = 12 + r.below(52);
+            (r.next() >> (63 - bits)).max(70_000)
+        }
+    };
+    let mut data = Vec::new();
+    let m = mode(&mut r, &mut data);
+    let mut ops = Vec::new();
+    let (mut off, mut len) = (0u64, total);
+    let window = 64 * KIB as u64;
+    let mut steps = 0;
+    while len > window && steps < 80 {
+        steps += 1;
+        ops.push(Op::HelperLeftLen { n: len });
+        let l = model_left_len(len);
+        // bias to the right edge sometimes, to the left otherwise, so offsets of every magnitude occur
+        if r.chance(2, 5) {
+            off += l;
+            len -= l;
+        } else {
+            len = l;
+        }
+    }
+    let len = len.min(window) as usize;
+    if off > 0 {
+        ops.push(Op::HelperMaxLen { off });
+    }
+    // the window must itself respect max_subtree_len(off): trim to it
+    let maxlen = if off == 0 { len } else { ((1024u128 << (off / 1024).trailing_zeros().min(40)) as usize).min(len) };
+    let len = maxlen.max(1);
+    data.push(data_spec(&mut r, len));
+    let di = data.len() - 1;
+    let mixa = AdapterMix { io: true, rayon: false, simjoin: r.chance(1, 3), mmap: false, traits: false };
+    // whole window as one subtree
+    ops.push(Op::NewHasher { slot: 0, mode: m.clone(), via: NewVia::Inherent });
+    ops.push(Op::SetOffset { h: 0, off });
+    let mut o = 0;
+    for f in fragments(&mut r, len) {
+        ops.push(Op::Absorb { h: 0, data: di, off: o, len: f, via: adapter(&mut r, f, &mixa) });
+        o += f;
+    }
+    ops.push(Op::FinalizeNonRoot { h: 0, cv: 100 });
+    // and as two halves merged (when it splits)
+    if len > KIB {
+        let l = model_left_len(len as u64) as usize;
+        for (k, (o2, l2)) in [(0usize, l), (l, len - l)].into_iter().enumerate() {
+            let h = 1 + k;
+            ops.push(Op::NewHasher { slot: h, mode: m.clone(), via: NewVia::Inherent });
+            ops.push(Op::SetOffset { h, off: off + o2 as u64 });
+            ops.push(Op::Absorb { h, data: di, off: o2, len: l2, via: AbsorbVia::Update });
+            ops.push(Op::FinalizeNonRoot { h, cv: 101 + k });
+            ops.push(Op::HelperMaxLen { off: off + o2 as u64 });
+        }
+        ops.push(Op::Merge { l: 101, r: 102, mode: m.clone(), kind: MergeKind::NonRoot, out: 103, n: 0 });
+    }
+    let lvl = level(&mut r, g.avail);
+    single("C09", "c09-giant", seed, Cfg { pool_width: 3, ..Cfg::default() }, data, lvl, ops)
+}
+
+// ---------------------------------------------------------------------------------------------
+// C16: RustCrypto traits and the guts API agree with the inherent API
+
+pub fn c16_traits(base_seed: u64, i: u64, g: &GenCtx) -> Plan {
+    let seed = mix(base_seed ^ 0xC16, i);
+    let mut r = Rng::new(seed);
+    let mut data = Vec::new();
+    let mut ops = Vec::new();
+    let max = if g.tier_thorough { 200 * KIB } else { 40 * KIB };
+    let nh = 1 + r.usize_below(2);
+    let mut slot = 0usize;
+    for _ in 0..nh {
+        // KeyInit only builds keyed hashers, Digest::new only plain ones
+        let m = match r.below(4) {
+            0 | 1 => {
+                data.push(DataSpec::Random { seed: r.next(), len: 32 });
+                Mode::Keyed { key: data.len() - 1 }
+            }
+            2 => Mode::Hash,
+            _ => mode(&mut r, &mut data),
+        };
+        let h = slot;
+        slot += 1;
+        let via = if matches!(m, Mode::Hash | Mode::Keyed { .. }) && r.chance(2, 3) { NewVia::Trait } else { NewVia::Inherent };
+        ops.push(Op::NewHasher { slot: h, mode: m, via });
+        let rounds = 1 + r.usize_below(3);
+        for _ in 0..rounds {
+            let total = size(&mut r, max);
+            data.push(data_spec(&mut r, total));
+            let di = data.len() - 1;
+            let mixa = AdapterMix { io: r.chance(1, 3), rayon: false, simjoin: false, mmap: false, traits: true };
+            let mut off = 0;
+            for f in fragments(&mut r, total) {
+                let via = match r.below(4) {
+                    0 => AbsorbVia::TraitUpdate,
+                    1 => AbsorbVia::DigestUpdate,
+                    2 => AbsorbVia::MacUpdate,
+                    _ => adapter(&mut r, f, &mixa),
+                };
+                ops.push(Op::Absorb { h, data: di, off, len: f, via });
+                off += f;
+                if r.chance(1, 3) {
+                    ops.push(query_op(&mut r, h, true));
+                }
+            }
+            // a resetting variant, then the same hasher continues: the state left behind matters
+            match r.below(5) {
+                0 => ops.push(Op::Finalize { h, via: FinVia::TraitReset }),
+                1 => {
+                    let rs = slot;
+                    slot += 1;
+                    ops.push(Op::FinalizeXof { h, r: Some(rs), n: xof_len(&mut r), via: FinVia::TraitReset });
+                    let k = 1 + r.usize_below(6);
+                    ops.extend(reader_ops(&mut r, rs, k, false, true));
+                }
+                2 => ops.push(Op::Reset { h, via: ResetVia::DigestReset }),
+                3 => {
+                    let rs = slot;
+                    slot += 1;
+                    ops.push(Op::FinalizeXof { h, r: Some(rs), n: xof_len(&mut r), via: FinVia::TraitClone });
+                    let k = 1 + r.usize_below(6);
+                    ops.extend(reader_ops(&mut r, rs, k, false, true));
+                }
+                _ => ops.push(Op::Finalize { h, via: FinVia::MacOrDigest }),
+            }
+        }
+        ops.push(Op::Count { h });
+        ops.push(Op::Finalize { h, via: FinVia::Inherent });
+    }
+    let lvl = level(&mut r, g.avail);
+    single("C16", "c16-traits", seed, Cfg::default(), data, lvl, ops)
+}
+
+pub fn c16_guts(base_seed: u64, i: u64, g: &GenCtx) -> Plan {
+    let seed = mix(base_seed ^ 0x6075, i);
+    let mut r = Rng::new(seed);
+    let mut data = Vec::new();
+    let mut ops = Vec::new();
+    if r.chance(1, 3) {
+        // isolated chunks at arbitrary counters (non-root)
+        let n = 1 + r.usize_below(4);
+        for k in 0..n {
+            let len = match r.below(5) {
+                0 => *r.pick(&[0usize, 1, 63, 64, 65, 1023, 1024]),
+                _ => r.usize_below(1025),
+            };
+            data.push(data_spec(&mut r, len));
+            let counter = match r.below(5) {
+                0 => r.below(10),
+                1 => (1u64 << 32) - 2 + r.below(4),
+                2 => u64::MAX - r.below(3),
+                3 => (1u64 << 54) - 1,
+                _ => r.next() >> r.below(64),
+            };
+            let cuts: Vec<u16> = (0..r.usize_below(5)).map(|_| r.below(400) as u16).collect();
+            ops.push(Op::GutsChunk { data: data.len() - 1, off: 0, len, counter, cuts, is_root: false, out: 100 + k });
+        }
+        if n >= 2 {
+            ops.push(Op::GutsParent { l: 100, r: 101, is_root: false, out: 200 });
+        }
+    } else {
+        // a whole input hashed the legacy way: chunk CVs + parent_cv up the tree
+        let max_chunks = if g.tier_thorough { 64 } else { 20 };
+        let len = match r.below(4) {
+            0 => r.usize_below(1025),
+            _ => 1 + r.usize_below(max_chunks * KIB),
+        };
+        data.push(data_spec(&mut r, len));
+        fn build(r: &mut Rng, ops: &mut Vec<Op>, off: usize, len: usize, next: &mut usize, top: bool) -> usize {
+            if len <= KIB {
+                let out = *next;
+                *next += 1;
+                let cuts: Vec<u16> = (0..r.usize_below(4)).map(|_| r.below(500) as u16).collect();
+                ops.push(Op::GutsChunk { data: 0, off, len, counter: (off / KIB) as u64, cuts, is_root: top, out });
+                return out;
+            }
+            let l = crate::model::largest_pow2_below(len as u64) as usize;
+            let a = build(r, ops, off, l, next, false);
+            let b = build(r, ops, off + l, len - l, next, false);
+            let out = *next;
+            *next += 1;
+            ops.push(Op::GutsParent { l: a, r: b, is_root: top, out });
+            out
+        }
+        let mut next = 100;
+        build(&mut r, &mut ops, 0, len, &mut next, true);
+        // the same through hazmat for cross-checking one representative subtree
+        ops.push(Op::OneShot { mode: Mode::Hash, data: 0, off: 0, len });
+    }
+    let lvl = level(&mut r, g.avail);
+    single("C16", "c16-guts", seed, Cfg { model_oracle: true, ..Cfg::default() }, data, lvl, ops)
+}
+
+// ---------------------------------------------------------------------------------------------
+// C17: secret state neither printed by Debug nor left behind by zeroize (judge: SelfCompose)
+
+pub fn c17(base_seed: u64, i: u64, g: &GenCtx) -> Plan {
+    let seed = mix(base_seed ^ 0xC17, i);
+    let mut r = Rng::new(seed);
+    let mut data = Vec::new();
+    let mut ops = Vec::new();
+    let max = if g.tier_thorough { 300 * KIB } else { 64 * KIB };
+    let nh = 1 + r.usize_below(2);
+    let mut slot = 0usize;
+    for _ in 0..nh {
+        // keyed and derive modes emphasised
+        let m = match r.below(5) {
+            0 => Mode::Hash,
+            1 | 2 => {
+                data.push(DataSpec::Random { seed: r.next(), len: 32 });
+                Mode::Keyed { key: data.len() - 1 }
+            }
+            _ => mode(&mut r, &mut data),
+        };
+        let h = slot;
+        slot += 1;
+        ops.push(Op::NewHasher { slot: h, mode: m, via: NewVia::Inherent });
+        // partial block >= 8 bytes and stack depth >= 2 are the interesting states
+        let total = match r.below(4) {
+            0 => size(&mut r, max),
+            1 => KIB * (3 + r.usize_below(40)) + 8 + r.usize_below(1000),
+            2 => 8 + r.usize_below(56),
+            _ => r.usize_below(8 * KIB),
+        };
+        data.push(data_spec(&mut r, total));
+        let di = data.len() - 1;
+        let mixa = AdapterMix { io: true, rayon: false, simjoin: false, mmap: false, traits: false };
+        let mut off = 0;
+        for f in fragments(&mut r, total) {
+            ops.push(Op::Absorb { h, data: di, off, len: f, via: adapter(&mut r, f, &mixa) });
+            off += f;
+            if r.chance(1, 3) {
+                ops.push(Op::DebugFmt { slot: h, pretty: r.chance(1, 2) });
+            }
+            if r.chance(1, 8) {
+                // wipe a clone at this instant
+                let c = slot;
+                slot += 1;
+                ops.push(Op::CloneH { h, new: c });
+                ops.push(Op::Zeroize { slot: c });
+            }
+        }
+        // an OutputReader mid-block
+        let rs = slot;
+        slot += 1;
+        ops.push(Op::FinalizeXof { h, r: Some(rs), n: *r.pick(&[0usize, 7, 33, 64, 100, 200]), via: FinVia::Inherent });
+        ops.push(Op::DebugFmt { slot: rs, pretty: r.chance(1, 2) });
+        let k = r.usize_below(5);
+        ops.extend(reader_ops(&mut r, rs, k, false, false));
+        ops.push(Op::DebugFmt { slot: rs, pretty: false });
+        if r.chance(2, 3) {
+            ops.push(Op::Zeroize { slot: rs });
+        }
+        // a Hash value (chaining value of the state) wiped too
+        if total > 0 && r.chance(1, 2) {
+            let cv = slot;
+            slot += 1;
+            ops.push(Op::FinalizeNonRoot { h, cv });
+            ops.push(Op::Zeroize { slot: cv });
+        }
+        ops.push(Op::DebugFmt { slot: h, pretty: r.chance(1, 2) });
+        ops.push(Op::Zeroize { slot: h });
+    }
+    // the legacy guts::ChunkState's Debug output (compared across the secret swap)
+    if r.chance(1, 3) {
+        let len = 8 + r.usize_below(1017);
+        data.push(DataSpec::Random { seed: r.next(), len });
+        let cuts: Vec<u16> = (0..r.usize_below(3)).map(|_| r.below(500) as u16).collect();
+        ops.push(Op::GutsChunk { data: data.len() - 1, off: 0, len, counter: r.below(1 << 20), cuts, is_root: false, out: 900 });
+    }
+    let lvl = level(&mut r, g.avail);
+    single("C17", "c17", seed, Cfg::default(), data, lvl, ops)
 }
